@@ -317,7 +317,7 @@ def run(ctx):
     ctx.assume("a null schema_version is 'no version reported' (such a node neither agrees nor disagrees); a wait budget <= 0 (documented bypass) is not generated")
     ctx.assume("snapshot switches are scheduled midway between polls so that both queries of a poll see the same snapshot (torn polls are counted and skipped)")
     n = ctx.scale(100000, 60000)
-    budget = 40 if ctx.quick else 420
+    budget = 38 if ctx.quick else 300
     base = ctx.seed * 1000003 + (ctx.worker or 0) * 100003
     import time
     t_start = time.time()          # the budget counts from here (imports can be slow on a loaded machine); a minimum is always run
